@@ -189,7 +189,7 @@ def run_every_operation(out, rnd):
     async def go(): return [await asyncio.wait_for(one(by[c["cls"]], c["kind"], c["after_hangup"]), 90) for c in cases]
     io = asyncio.run(go())
     # after a hang-up whether the flag is still up before disconnect() is not judged (the client has not been told); the outcome of the operation is C09's
-    io = [i.replace("connected=True; connected=False open=0", "connected=False open=0", 1) if c["after_hangup"] else i.replace("operation raised", "operation returned") for i, c in zip(io, cases)]
+    io = [i.split("; ")[-1] if c["after_hangup"] and "never" not in i and "unexpected" not in i else i.replace("operation raised", "operation returned") for i, c in zip(io, cases)]
     want = ["connected=False open=0" if c["after_hangup"] else "operation returned; connected=True open=1; connected=False open=0" for c in cases]
     lib.differential(out, "one-operation-of-every-kind-in-a-session", cases, io, None, want,
                      lambda c: "%s: connect, %s%s, disconnect" % (c["cls"], "the device hangs up, " if c["after_hangup"] else "", world.KIND_NAMES[c["kind"]]), sample=lambda c: c,
